@@ -300,8 +300,8 @@ def step (cfg : Cfg) (m : Mem) : Op → Mem
   | .add t g => cgAdd cfg m t g
   | .addN qs => (cgAddN cfg m qs).1
   | .remove tq => cgRemove cfg m tq
-  | .graph g => dsGraph cfg m g
-  | .removeGraph k => dsRemoveGraph cfg m k
+  | .graph g => if cfg.isDs then dsGraph cfg m g else m            -- ConjunctiveGraph has no `graph()`
+  | .removeGraph k => if cfg.isDs then dsRemoveGraph cfg m k else m -- … and no `remove_graph()`
   | .removeContext k => cgRemoveContext m k
   | .vadd k t => vAdd m k t
   | .vremove k p => vRemove m k p
